@@ -8,7 +8,7 @@ From Coq Require Import Reals.
 From Interval Require Import Xreal Interval.
 From Flocq Require Import Core.
 From CPL Require Import Model.Base Model.BienExact Model.Bien Proofs.EntropyBounds
-  Proofs.BienExactProofs Proofs.BienProofs Corr.C18 Proofs.BienCorrProofs.
+  Proofs.BienExactProofs Proofs.BienProofs Model.BienLong Proofs.BienLongProofs Corr.C18 Proofs.BienCorrProofs.
 
 (* ---------------------------------------------------------------- exact layer: the derivatives *)
 
@@ -119,6 +119,13 @@ Theorem C18_enclosures : forall s : list bool, (2 <= length s)%nat ->
   contains (I.convert (ktbienI s)) (Xreal (ktbien s)).
 Proof. intros s Hn. split; [apply bienI_ok|split; [apply tbienI_ok|apply ktbienI_ok]]; exact Hn. Qed.
 
+(* the twin used for strings longer than 301 digits (a logarithm table built for the string, any precision) *)
+Theorem C18_enclosures_long : forall pr (s : list bool), (2 <= length s)%nat ->
+  contains (I.convert (bienIL pr s)) (Xreal (bien s)) /\
+  contains (I.convert (tbienIL pr s)) (Xreal (tbien s)) /\
+  contains (I.convert (ktbienIL pr s)) (Xreal (ktbien s)).
+Proof. intros pr s Hn. split; [apply bienIL_ok|split; [apply tbienIL_ok|apply ktbienIL_ok]]; exact Hn. Qed.
+
 Theorem C18_within_sound : forall enc m e x, contains (I.convert enc) (Xreal x) -> within enc m e = true ->
   Rabs (x - IZR m * bpow radix2 e) <= / 2 ^ 30.
 Proof. exact within_ok. Qed.
@@ -190,6 +197,7 @@ Print Assumptions C18_bien_symmetry.
 Print Assumptions C18_tbien_symmetry.
 Print Assumptions C18_ktbien_symmetry.
 Print Assumptions C18_enclosures.
+Print Assumptions C18_enclosures_long.
 Print Assumptions C18_within_sound.
 Print Assumptions C18_check_case_sound.
 From CPL Require Import gen.GenFuns_C18 GenProps.GenFunsEquivC18 GenProps.C18Src. (* source tie: gen/GenFuns_C18.v is regenerated from bien.py on every run *)
